@@ -12,19 +12,24 @@ def run_one(s):
     dtype = torch.float64 if s["tid"] % 4 else torch.float32
     res = {"exc": "", "batch": [], "single": [], "dtype": "f64" if dtype == torch.float64 else "f32", "shape_ok": True}
 
-    def evaluate(rws):
+    def evaluate(rws, axes=1):
+        # axes = 2: a batch with TWO leading axes (2, n, d), slice 0 = the rows, slice 1 = the rows in reverse order
         n = len(rws)
-        inp = {g: torch.tensor([[float(r[i]) for i in idx] for r in rws], dtype=dtype, requires_grad=True)
-               for g, idx in GIDX.items()}
+        data = {g: [[float(r[i]) for i in idx] for r in rws] for g, idx in GIDX.items()}
+        if axes == 2:
+            inp = {g: torch.tensor([data[g], list(reversed(data[g]))], dtype=dtype, requires_grad=True) for g in GIDX}
+        else:
+            inp = {g: torch.tensor(data[g], dtype=dtype, requires_grad=True) for g in GIDX}
+        lead = (2, n) if axes == 2 else (n,)
         scal = {}
         for g, idx in GIDX.items():
             for j, i in enumerate(idx):
-                scal[i] = inp[g][:, j:j + 1]
+                scal[i] = inp[g][..., j:j + 1]
 
         def poly(p):
-            out = torch.zeros((n, 1), dtype=dtype)
+            out = torch.zeros(lead + (1,), dtype=dtype)
             for term in p:
-                v = torch.full((n, 1), float(term["c"]), dtype=dtype)
+                v = torch.full(lead + (1,), float(term["c"]), dtype=dtype)
                 for i, e in enumerate(term["e"]):
                     for _ in range(e):
                         v = v * scal[i]
@@ -37,10 +42,10 @@ def run_one(s):
             fn = {"grad": do.grad, "laplacian": do.laplacian, "partial": do.partial}[op]
             r = fn(u, *vars_)
         elif op == "normal_derivative":
-            nrm = torch.cat([poly(a) for a in aux], dim=1)
+            nrm = torch.cat([poly(a) for a in aux], dim=-1)
             r = do.normal_derivative(comps[0], nrm, *vars_)
         elif op == "div":
-            r = do.div(torch.cat(comps, dim=1), *vars_)
+            r = do.div(torch.cat(comps, dim=-1), *vars_)
         elif op == "jac":
             r = do.jac(torch.cat(comps, dim=1), *vars_)
         elif op == "convective":
@@ -55,6 +60,8 @@ def run_one(s):
             r = do.rot(torch.cat(comps, dim=1), *vars_)
         else:
             raise ValueError(op)
+        if axes == 2:
+            return r.detach().reshape(2 * n, -1)
         return r.detach().reshape(n, -1)          # (a view of the operator's result: read later, see below)
 
     def ints(r):
@@ -75,6 +82,14 @@ def run_one(s):
         res["msg"] = rr[2][:160] if len(rr) > 2 else ""
         return res
     res["batch"], res["batch2"] = rr[1]
+    # the operators that accept a batch with two leading axes (functions x points): per point the same values
+    res["batch3"], res["exc3"] = [], ""
+    if op in ("laplacian", "partial", "normal_derivative", "div") or (op == "grad" and len(gs) == 1):
+        r3 = watched(lambda: ints(evaluate(rows, axes=2)))
+        if r3[0] != "ok":
+            res["exc3"] = r3[1] if len(r3) > 1 else "hang"
+        else:
+            res["batch3"] = r3[1]
     for rw in rows:
         r1 = watched(lambda: ints(evaluate([rw])))
         res["single"].append(r1[1][0] if r1[0] == "ok" else [])
